@@ -210,6 +210,35 @@ def run(ctx):
     mres, errors = vlib.eval_cases(os.path.join(work, "coq"), "trees", "From MinkV Require Import Pst.\nOpen Scope list_scope.\n", defs, shard_size=12)
     for e2 in errors:
         res["corr_broken"].append({"kind": "case-evaluation", "detail": e2})
+    # text -> pair tree of the same variants: the PEG model on the regenerated grammar vs pest
+    pdefs = []
+    for jid, k, mode, p in tree_jobs:
+        raw = open(p, "rb").read()
+        if len(raw) > 6000:
+            continue
+        r = vlib.run([ctx["idlc"], "--dump", "pst", p], timeout=60)
+        tree = None
+        if r[0] == 0 and r[1].lstrip().startswith("["):
+            try:
+                tree = pstdump.parse(r[1])
+            except Exception:
+                continue
+        dump = "None" if tree is None else "(Some %s)" % pstdump.gallina(pstdump.san_bytes_tree(tree))
+        pdefs.append((jid, "", "[chk_peg [%s]%%N %s]" % ("; ".join(str(b) for b in raw), dump)))
+    pres, perrors = vlib.eval_cases(os.path.join(work, "coqp"), "pegtrees", "From MinkV Require Import Pst.\nOpen Scope list_scope.\n", pdefs, shard_size=12)
+    for e2 in perrors:
+        res["corr_broken"].append({"kind": "case-evaluation", "detail": e2})
+    peg_hist = {"agree": 0, "differ": 0}
+    for jid, k, mode, p in tree_jobs:
+        fl = pres.get(jid)
+        if fl is None:
+            continue
+        if fl[0] == 1:
+            peg_hist["agree"] += 1
+        else:
+            peg_hist["differ"] += 1
+            res["corr_broken"].append({"kind": "correspondence", "detail": "PEG model (regenerated grammar) vs pest disagree on a %s variant of case %d" % (mode, k),
+                                       "case": {"property": prop, "variant": mode, "text": open(p, "rb").read().decode("utf-8", "replace")[:3000]}})
     for jid, k, mode, p in tree_jobs:
         fl = mres.get(jid)
         if fl is not None and fl[0] == 0:
@@ -238,6 +267,7 @@ def run(ctx):
             res["failures"].append(fl)
     res["coverage"] = {
         "evaluations": nvar, "distinct_nontrivial": distinct,
+        "peg_model": peg_hist,
         "rule": "per generated single-file program: 2 whitespace/line-break re-renderings, 2 with ordinary comments between declarations/fields/members, "
                 "2 with comments between whole parameters (after the opening parenthesis, after commas, before the closing parenthesis), 2 with comments between tokens, documentation changed / removed / followed by a comment, --marking, --no-typed-objects; each compared "
                 "with the plain rendering over 6 backend outputs; non-trivial = at least 2 declarations",
